@@ -7,3 +7,4 @@ import WindVerif.Props.C10
 import WindVerif.Props.C16
 import WindVerif.Props.C15
 import WindVerif.Props.C17
+import WindVerif.Props.C19
